@@ -158,29 +158,11 @@ Definition mcase_is (c : mcase) : bool :=
    outcome.  The model generates the program on a new generator and runs the evaluations in this order on its two heaps
    (the list constant reached through the maps changes its representation on the way); what other functions did in
    between does not matter by C10_mixed_eval_history_independent - if the implementation depended on it, it shows here.
-   xprog_typed: the key of a list-valued entry / let starts with `l`, every other key does not (the model's handles
-   are untyped), and the body folds nothing at Generate time *)
+   xprog_typed: the program is well typed (Heap/MixState.v xprog_wt: the key of a list-valued entry / let starts with
+   `l`, every other key does not - the model's handles are untyped) and the body folds nothing at Generate time *)
 Inductive xcase := XCase (p : xprog) (evals : list (list Z * nat * outcome)).
 
-Definition is_lkey (k : str) : bool := match k with c :: _ => N.eqb c 108 | [] => false end.
-Definition xval_typed (kv : str * xval) : bool :=
-  match snd kv with XVList _ => is_lkey (fst kv) | XVInt _ => negb (is_lkey (fst kv)) end.
-Fixpoint xm_typed (e : xmexp) : bool :=
-  match e with
-  | XMConst _ => true
-  | XMLit es => forallb xval_typed es
-  | XMPut m k v => xm_typed m && xval_typed (k, v)
-  | XMMerge a b => xm_typed a && xm_typed b
-  end.
-Definition xb_typed (b : xbind) : bool :=
-  match b with
-  | XBList m k => xm_typed m && is_lkey k
-  | XBInt m k => xm_typed m && negb (is_lkey k)
-  | XBSize m => xm_typed m
-  | XBIndex _ _ | XBOSize _ => true
-  end.
-Definition xprog_typed (p : xprog) : bool :=
-  forallb xm_typed (xp_mdefs p) && forallb xb_typed (xp_binds p) && body_nofold (xp_body p).
+Definition xprog_typed (p : xprog) : bool := xprog_wt p && body_nofold (xp_body p).
 
 Fixpoint xsess_im (cp : caps) (g : xgstate) (evs : list (list Z * nat * outcome)) : bool :=
   match evs with
